@@ -270,8 +270,13 @@ func runCommandCase(t *testing.T, c *Case) *CaseResult {
 		what := cmd.Command
 		outcomeViolation(cr, prop, &res, what)
 	}
-	if cr.NonTrivial {
+	// distinct = distinct case hashes among cases with a structural fault
+	cr.Distinct = nil
+	if len(cmd.Faults) > 0 {
+		cr.NonTrivial = true
 		cr.Distinct = append(cr.Distinct, hashCase(c))
+	} else {
+		cr.NonTrivial = false
 	}
 	return cr
 }
